@@ -34,12 +34,12 @@ var plans = map[string]*plan{
 		Level: "exploration",
 		Rule: "field records of all 14 packet types are built through the public setters and compared byte for byte with an independent reference encoder, decoded back and re-encoded; " +
 			"boundary cross product (string/payload lengths 0/1/127/128/16383/16384/65535, remaining length at every varint edge, 1..1000 filters, all flag combinations, ids 1/255/256/65535) plus seeded random records; " +
-			"every accepted byte string (valid, valid+trailing bytes, bit-flipped) must re-encode verbatim; >400000 consecutive automatic packet ids (a full 16-bit wrap per kind), and 2/4/8/16 goroutines drawing automatic ids at once through 160 wraps each (1280 wraps per quick run) (every packet Len() bytes, id non-zero, strict decode). " +
+			"every accepted byte string (valid, valid+trailing bytes, bit-flipped) must re-encode verbatim, also after being decoded into a message object that already held another packet of its type, and a Clone() changed through its setters must leave the original alone; Encode always writes into a destination pre-filled with 0xa5; CONNECTs are built with the raw flag setters and through the value setters alone in two orders; >400000 consecutive automatic packet ids (a full 16-bit wrap per kind), and 2/4/8/16 goroutines drawing automatic ids at once through 160 wraps each (1280 wraps per quick run) (every packet Len() bytes, id non-zero, strict decode). " +
 			"A case is non-trivial and distinct by its class key: packet type x flag combination x length class of every variable field x varint size (build/...), or type x input kind x exact/trailing (accepted/...).",
 		Quick:          []batchSpec{{Test: "TestC03", N: 6, Timeout: 10 * m}, {Test: "TestC03CounterConc", N: 8, Timeout: 10 * m}},
 		Thorough:       []batchSpec{{Test: "TestC03", N: 16, Timeout: 40 * m}, {Test: "TestC03CounterConc", N: 8, Timeout: 40 * m}},
 		EvalStats:      []string{"c03.build", "c03.accept.tried", "c03.counter.encodes"},
-		Floors:         map[string]int64{"c03.build": 15000, "c03.accept.accepted": 20000, "c03.counter.encodes": 400000, "c03.counterconc.wraps": 1200, "classes": 300},
+		Floors:         map[string]int64{"c03.build": 15000, "c03.accept.accepted": 20000, "c03.counter.encodes": 400000, "c03.counterconc.wraps": 1200, "c03.reuse.checked": 15000, "c03.clone.checked": 3000, "c03.build.connect_setter_orders": 500, "classes": 300},
 		FloorsThorough: map[string]int64{"c03.build": 900000, "c03.accept.accepted": 1000000, "c03.counter.encodes": 400000, "classes": 1000},
 		Assumptions: []string{"the reference codec (harness/refcodec, written from the OASIS text) is correct",
 			"'built through the message API' means the value setters (SetTopic, SetPayload, SetUsername, AddTopic, ...); the raw flag setters SetUsernameFlag/SetPasswordFlag/SetWillFlag are only used together with their value"},
